@@ -57,8 +57,8 @@ PROPS['C06']['level_note'] = PROTO_NOTE
 PROPS.update({
     'C01': _ev(['protocol'], 'Unbounded per-function proof: both completion paths remove exactly the named operation and its id bindings and keep wf; '
                'every ack handler completes only the operation its packet id names, of the right type and reason-code count (resp_belongs), and '
-               'changes nothing otherwise; operation ids are fresh (create_operation never overwrites). At-most-once handler invocation is the '
-               'E-K harness on complete_operation_with_result/_error; reset()/connection-closed are bounded (E-B).', design_ref='DESIGN.md 3/C01'),
+               'changes nothing otherwise; operation ids are fresh (create_operation never overwrites); the close handler and session handling never resurrect or duplicate an operation. '
+               'That complete_operation_with_result/_error invoke the taken one-shot handler exactly once is an assumed contract (a Kani harness for it did not finish in 25 min); E-B counts results per operation. reset() is bounded (E-B).', design_ref='DESIGN.md 3/C01'),
     'C04': _ev(['protocol'], 'Per-function proof of the QoS2 handshake steps (PUBREC sets exactly one PUBREL for that id and queues it; PUBCOMP only after PUBREC), '
                'of the DUP-flag frame, and of what happens to a half-written publish at connection close; re-queue at close/CONNACK is bounded (E-B).', design_ref='DESIGN.md 3/C04'),
     'C05': _ev(['protocol'], 'Complete per-function proof for handle_publish / handle_pubrel: QoS1 -> event + one PUBACK at the back; QoS2 -> PUBREC always, event iff id not pending; '
@@ -172,6 +172,7 @@ EB_FIXED = _findings_group(['engine_fixed_findings_stay_fixed'])
 EB_FIXED = dict(EB_FIXED, name='fixed-findings', filters=['findings::engine_fixed'])
 PROPS['C11']['eb'].append(EB_FIXED)
 
+
 EB_SVCTIME = {'name': 'service-time', 'crate': 'gneiss-mqtt', 'module_dir': 'gneiss_mqtt', 'filters': ['engine::service_time'], 'tests': ['service_time_contract_never_strands_work', 'service_time_covers_every_armed_deadline'], 'timeout': 3000}
 PROPS['C08']['eb'] = [EB_SVCTIME] + PROPS['C08'].get('eb', [])
 
@@ -193,3 +194,5 @@ PROPS['C03']['eb'].append(EB_REFENC)
 EB_THREADED = {'name': 'driver-threaded', 'crate': 'gneiss-mqtt', 'module_dir': 'gneiss_mqtt', 'features': ['threaded'], 'raw_filters': ['verif_bounded::driver_threaded'],
                'tests': ['threaded_driver_hands_each_connection_only_its_own_bytes', 'threaded_operations_around_close_always_resolve'], 'timeout': 3000}
 PROPS['C13']['eb'].append(EB_THREADED)
+
+PROPS['C11']['eb'].append(EB_REFENC)
